@@ -19,7 +19,7 @@ EXACT_CLASSES = {"Solver", "SolverCacheless", "SolverComposite", "SolverReplacem
 APPROX_CLASSES = {"SolverVSA"}
 
 
-STRUCTURAL = {"new", "branch", "drop", "pickle", "add", "merge", "combine"}
+STRUCTURAL = {"new", "branch", "drop", "pickle", "add", "merge", "combine", "add_replacement"}
 
 
 class Violation(Exception):
@@ -533,6 +533,24 @@ class Machine:
         if st != "ok":
             self.unexpected(h, op, val)
         return ["added"]
+
+    def op_add_replacement(self, op):
+        """SolverReplacement.add_replacement(var, const): on a variable that no constraint mentions it means var == const"""
+        h = self.H(op)
+        n, v = op["var"], op["value"]
+        w = self.variables[n]
+        c = ["eq", ["var", n], ["const", v, w]]
+        h.ref.add(c)
+        h.lineage.append(c)
+        h.pins.setdefault(n, v)
+        if self.dry:
+            return ["added"]
+        if not hasattr(h.solver, "add_replacement"):
+            raise _Skip("not a replacement frontend")
+        res = self.call(h.solver.add_replacement, self.ast(["var", n]), self.cl.BVV(v, w))
+        if res[0] != "ok":
+            self.unexpected(h, op, res[1])
+        return ["replaced"]
 
     def op_simplify(self, op):
         h = self.H(op)
